@@ -88,7 +88,7 @@ Proof.
 Qed.
 
 Lemma b_tryNext s : ok (tryNextSasl c s).
-Proof. unfold tryNextSasl. repeat (first [apply b_transition | apply b_expect | apply b_endCap | okstep]). Qed.
+Proof. unfold tryNextSasl. repeat (first [apply b_transition | apply b_expect | apply b_endCap | apply b_reconnect | okstep]). Qed.
 Lemma b_maybe s : ok (maybeStartSasl c s).
 Proof. unfold maybeStartSasl. repeat (first [apply b_transition | apply b_tryNext | apply b_endCap | okstep]). Qed.
 Lemma b_upkeep s : ok (capUpkeep c s).
